@@ -17,7 +17,7 @@ RULE = ('case = block of load/unload histories (exhaustive enumeration by index)
         'checked; non-trivial history = at least one unload followed by a load, or two loaded keys sharing an alias; distinct = distinct histories '
         '(digest of the operation sequence); the evidence also reports distinct abstract index states (multiset of loaded objects) visited')
 ASSUMPTIONS = ['identifiers are computed from public attributes of the key objects (fingerprint, userids)']
-MIN_COUNTERS = {'quick': {'histories': 90000, 'steps_checked': 150000, 'selections_checked': 2000000, 'walk_steps': 300},
+MIN_COUNTERS = {'quick': {'histories': 90000, 'steps_checked': 150000, 'selections_checked': 2000000, 'walk_steps': 300, 'multi_key_loads': 20},
                 'thorough': {'histories': 1000000}}
 BUDGET = {'quick': (260, 800), 'thorough': (2400, 3600)}
 TECHNIQUE = 'runtime monitoring: bounded-exhaustive history enumeration + random walks against a shadow model; invariants checked after every step'
@@ -245,7 +245,7 @@ def _walk(ctx, d, pgpy, U, sc):
     sc = dict(sc)
     for step in range(d['n']):
         ctx.count('walk_steps')
-        op = r.choice(['load_obj', 'load_obj', 'unload', 'unload', 'load_bin', 'load_asc', 'load_file', 'load_list'])
+        op = r.choice(['load_obj', 'load_obj', 'unload', 'unload', 'load_bin', 'load_asc', 'load_file', 'load_list', 'load_multi'])
         before = set(map(id, kr._keys.values())) if hasattr(kr, '_keys') else None
         if op == 'load_obj':
             o = r.choice(U + extra_objs)
@@ -258,6 +258,48 @@ def _walk(ctx, d, pgpy, U, sc):
             kr.unload(o)
             loaded = [x for x in loaded if x is not o]
             trace.append('unload')
+        elif op == 'load_multi' and before is not None:
+            # one argument holding several transferable keys back to back (a keyring file): two or three keys, and in half of the cases
+            # both halves of the same key, in either order
+            parts = r.sample(U, r.choice([2, 3]))
+            if r.random() < 0.5:
+                twin = [x for x in U if x.fingerprint == parts[0].fingerprint and x is not parts[0]][0]
+                parts = [p_ for p_ in parts if p_ is not twin]
+                parts.insert(r.randrange(1, len(parts) + 1), twin)
+            blob = b''.join(bytes(p_) for p_ in parts)
+            if r.random() < 0.5:
+                fps = kr.load(blob)
+            else:
+                path = os.path.join(scratch, 'krm%d_%d.gpg' % (os.getpid(), step))
+                with open(path, 'wb') as f:
+                    f.write(blob)
+                try:
+                    fps = kr.load(path)
+                finally:
+                    os.unlink(path)
+            ctx.count('multi_key_loads')
+            exp = set()
+            for p_ in parts:
+                exp |= {str(p_.fingerprint)} | {str(sk.fingerprint) for sk in p_.subkeys.values()}
+            if not exp <= {str(f) for f in fps}:
+                ctx.fail('load-return-value', {'trace': trace[-5:], 'returned': sorted(map(str, fps)), 'expected_superset': sorted(exp)})
+            new = [k for k in kr._keys.values() if id(k) not in before and k.is_primary]
+            want = sorted((str(p_.fingerprint), p_.is_public) for p_ in parts)
+            got = sorted((str(k.fingerprint), k.is_public) for k in new)
+            if got != want:
+                ctx.fail('key-in-multi-key-blob-not-loaded', {'trace': trace[-5:], 'blob_holds': want, 'keyring_gained': got})
+            for p_ in parts:
+                if p_.fingerprint not in kr.fingerprints(keyhalf='public' if p_.is_public else 'private'):
+                    ctx.fail('half-in-multi-key-blob-not-reported', {'trace': trace[-5:], 'fingerprint': str(p_.fingerprint), 'public': p_.is_public})
+            for k in new:
+                if not any(k is x for x in loaded):
+                    loaded.append(k)
+                    extra_objs.append(k)
+                    sc[id(k)] = idents(k)
+                    for sk in k.subkeys.values():
+                        fp = str(sk.fingerprint)
+                        sc[id(sk)] = {fp: 'sub-fingerprint', ' '.join(fp[i:i + 4] for i in range(0, 40, 4)): 'sub-fingerprint-spaced', fp[-16:]: 'sub-keyid', fp[-8:]: 'sub-shortid'}
+            trace.append('load_multi %s' % ['%d%s' % (U.index(p_) // 2, 'P' if p_.is_public else 'S') for p_ in parts])
         elif op in ('load_bin', 'load_asc', 'load_file', 'load_list') and before is not None:
             src = r.choice(U)
             if op == 'load_bin':
